@@ -336,6 +336,26 @@ open J1939 J1939.Gen
 section fd
 open J1939.Dll22 J1939.Pre22
 
+theorem processCm22_keeps (cfg : Cfg) (s : St) (now : Nat) (mid : MessageId) (dest : Nat) (data : List Nat) :
+    (processCm cfg s now mid dest data).st.snd.keys = s.snd.keys ∧ (processCm cfg s now mid dest data).st.mpg = s.mpg := by
+  unfold processCm
+  dsimp only
+  split
+  · exact ⟨rfl, rfl⟩
+  · split
+    · exact ⟨rfl, rfl⟩
+    · repeat' split
+      all_goals first
+        | exact ⟨rfl, rfl⟩
+        | (refine ⟨?_, rfl⟩; simp only; exact keys_set_of_get? _ _ _ _ (by assumption))
+
+theorem processDt22_keeps (s : St) (now : Nat) (mid : MessageId) (dest : Nat) (data : List Nat) :
+    (processDt s now mid dest data).st.snd.keys = s.snd.keys ∧ (processDt s now mid dest data).st.mpg = s.mpg := by
+  unfold processDt
+  dsimp only
+  repeat' split
+  all_goals exact ⟨rfl, rfl⟩
+
 /-- J1939-22: the receive thread never adds or removes a send session and never touches a multi-PG buffer -/
 theorem c08_22_rx_keeps_snd_keys (cfg : Cfg) (s : St) (now : Nat) (acc : Nat → Bool) (canId : Nat) (data : List Nat) :
     (notify cfg s now acc canId data).st.snd.keys = s.snd.keys ∧ (notify cfg s now acc canId data).st.mpg = s.mpg := by
@@ -344,17 +364,8 @@ theorem c08_22_rx_keeps_snd_keys (cfg : Cfg) (s : St) (now : Nat) (acc : Nat →
   repeat' split
   all_goals first
     | exact ⟨rfl, rfl⟩
-    | skip
-  · unfold processCm
-    dsimp only
-    repeat' split
-    all_goals first
-      | exact ⟨rfl, rfl⟩
-      | (refine ⟨?_, rfl⟩; simp only; exact keys_set_of_get? _ _ _ _ (by assumption))
-  · unfold processDt
-    dsimp only
-    repeat' split
-    all_goals exact ⟨rfl, rfl⟩
+    | exact processCm22_keeps ..
+    | exact processDt22_keeps ..
 
 theorem tickSnd_frame (cfg : Cfg) (now : Nat) (ks : List Nat) (s : St) (nw : Nat) (o : List Out) :
     (∀ k, k ∉ ks → (tickSnd cfg now ks s nw o).1.snd.get? k = s.snd.get? k) ∧ (tickSnd cfg now ks s nw o).1.mpg = s.mpg ∧
